@@ -204,4 +204,22 @@ Section W.
     { induction l as [|x l IH]; [reflexivity|]. cbn [map combine]. now rewrite IH. }
     rewrite !C, !map_map. apply Rsum_perm. apply Permutation_map. exact HP.
   Qed.
+
+  (* ---- the guards of the partition-of-unity theorems are needed *)
+  Lemma fj_sum1_guard_needed :
+    exists a : list (list R), Rsum (map Rsum a) = 0 /\ Rsum (f_j Nm a) <> 1.
+  Proof.
+    exists [[0]]. split; [unfold Rsum; cbn; lra|].
+    rewrite f_j_R. unfold Rsum. cbn. unfold Rdiv. rewrite Rplus_0_l at 1. rewrite Rmult_0_l. lra.
+  Qed.
+
+  Lemma fj_nonneg_guard_needed :
+    exists a : list (list R), 0 < Rsum (map Rsum a) /\ ~ List.Forall (fun f => 0 <= f) (f_j Nm a).
+  Proof.
+    exists [[2]; [-1]]. split; [unfold Rsum; cbn; lra|].
+    rewrite f_j_R. intros H. inversion H as [|? ? _ H2]. inversion H2 as [|? ? H3 _].
+    match type of H3 with 0 <= ?x / ?t =>
+      assert (E : t = 1) by (unfold Rsum; cbn; lra); rewrite E in H3 end.
+    unfold Rdiv, Rsum in H3. cbn in H3. rewrite Rinv_1 in H3. lra.
+  Qed.
 End W.
